@@ -39,7 +39,7 @@ Proof.
   intros HC H. destruct (commit_journal_file s commit s' H) as [f [E1 [E2 [E3 [E4 [E5 _]]]]]].
   assert (txid s' = txid s + 1) as Et.
   { clear -H. unfold op_commit_journal in H. destruct (writeable s); cbn [negb] in H; [|discriminate].
-    destruct (journal_pages _ _ _); [|discriminate]. destruct (checksum _ _ _) as [[post|] s2]; [|discriminate].
+    destruct (journal_pages _ _ _) as [[pages|] sj]; [|discriminate]. destruct (checksum _ _ _) as [[post|] s2]; [|discriminate].
     inversion H; subst. reflexivity. }
   eapply chain_append; eauto; congruence.
 Qed.
@@ -302,7 +302,8 @@ Proof.
   - (* OWrite *) unfold op_write_page in H. destruct (writeable s); cbn [negb] in H; [|discriminate].
     inversion H; subst s'. destruct HC as [A Bq]. split; destruct (wal_mode s); assumption.
   - (* OTruncate *) destruct (truncate_spec s n s' Done H) as [_ [_ [A [Bq C]]]]. destruct HC as [D E]. unfold Chain. rewrite A, Bq, C. auto.
-  - eapply chain_commit_journal; eassumption.
+  - destruct (writeable s && (pageN s =? 0) && match dbfile s with [] => true | _ => false end);
+      [inversion H; subst; exact HC|eapply chain_commit_journal; eassumption].
   - inversion H; subst. exact HC.
   - inversion H; subst. exact HC.
   - inversion H; subst. exact HC.
@@ -317,6 +318,7 @@ Proof.
   - inversion H; subst. exact HC.
   - (* OWriteJ *) unfold op_write_page_j in H. destruct (writeable s); cbn [negb] in H; [|discriminate].
     inversion H; subst s'. destruct HC as [A Bq]. split; assumption.
+  - (* OZeroFill *) unfold op_zero_fill in H. inversion H; subst s'. destruct HC as [A Bq]. split; assumption.
 Qed.
 
 Lemma chain_init lock : Chain (init lock).
